@@ -132,7 +132,29 @@ def m_bm_put(ex, args, callee):
     dv(args[0]).chunks.append(args[1]); return Tup([])
 
 
+def m_size_hint(ex, args, callee):
+    """http_body::Body::size_hint contract: lower <= bytes still to come <= upper (when an upper bound is known at all;
+    a chunked body has none).  Lower / upper / presence are symbols constrained only by that contract."""
+    body = dv(args[0])
+    while isinstance(body, Opaque) and isinstance(body.payload, Body): body = body.payload
+    if not isinstance(body, Body): raise Unsupported(f'size_hint of {body!r}')
+    total = z3.BitVecVal(0, 64)
+    for fr in body.script[body.pos:]:
+        if fr[0] == 'data': total = total + fr[1].len
+    lo, up, has_up = z3.BitVec('size_hint_lower', 64), z3.BitVec('size_hint_upper', 64), z3.Bool('size_hint_has_upper')
+    ex.assume(z3.ULE(lo, total)); ex.assume(z3.Implies(has_up, z3.ULE(total, up)))
+    return Opaque('sizehint', (lo, up, has_up))
+
+
+def m_hint_upper(ex, args, callee):
+    lo, up, has_up = dv(args[0]).payload
+    return ex.some(up) if ex.truth(has_up) else ex.none()
+
+
 MODELS = [
+    (r' as (hyper::body::|http_body::)?Body>::size_hint$', m_size_hint),
+    (r'SizeHint::upper$', m_hint_upper), (r'SizeHint::lower$', lambda ex, a, c: dv(a[0]).payload[0]), (r'SizeHint::exact$', lambda ex, a, c: m_hint_upper(ex, a, c)),
+    (r'^BytesMut::with_capacity$', lambda ex, a, c: BytesMut()),
     (r' as BodyExt>::frame$', m_frame),
     (r'<http_body_util::combinators::Frame<.*> as (futures::)?Future>::poll$', m_frame_poll),
     (r'hyper::body::Frame::<.*>::into_data$', m_into_data),
